@@ -155,6 +155,14 @@ Theorem prefix_conn_without_separator_panics_refuted :
 Proof. exact C15Prefix.prefix_conn_without_separator_panics_refuted. Qed.
 Print Assumptions prefix_conn_without_separator_panics_refuted.
 
+(* on every "mysql..." connection string without "://" the unpatched check panics, the patched rejects *)
+Theorem prefix_every_separatorless_mysql_string_panics : forall my pg c,
+  lc_storage_backend c = backend_CTFE -> has_prefix (lc_conn c) "mysql" = true ->
+  ~ (exists a b, lc_conn c = a ++ "://" ++ b) ->
+  check_conn_prefix my pg c = Panic /\ check_conn my pg c = Reject.
+Proof. exact C15Prefix.prefix_every_separatorless_mysql_string_panics. Qed.
+Print Assumptions prefix_every_separatorless_mysql_string_panics.
+
 Theorem prefix_absent_backends_panics_refuted :
   exists m, forall my pg, validate_log_multi_config_prefix my pg m = Panic.
 Proof. exact C15Prefix.prefix_absent_backends_panics_refuted. Qed.
